@@ -4,9 +4,9 @@ package main
 
 import (
 	"encoding/json"
-	"golang.org/x/tools/go/ssa"
 	"flag"
 	"fmt"
+	"golang.org/x/tools/go/ssa"
 	"os"
 	"path/filepath"
 	"runtime/debug"
